@@ -133,6 +133,7 @@ pub fn exec(case: &ThrCase) -> RunOut {
     out.count(&format!("type.{fam}"), 1);
     out.nontrivial = case.spec.n() > 0;
     let before = catch(|| ser_vec(x.as_ref(), 0));
+    let pristine = catch(|| x.clone_box()).ok();
     let mut qrng = Rng::new(case.qseed);
     let qs_all = gen_queries(&case.spec, &mut qrng, case.n_queries);
     // ---- 2. sequential purity
@@ -168,6 +169,17 @@ pub fn exec(case: &ThrCase) -> RunOut {
         }
         _ => {
             out.count("serialization_unavailable", 1);
+        }
+    }
+    // queries never modify the value: it still equals the clone taken before the first query
+    if let Some(p) = &pristine {
+        match catch(|| x.eq_dyn(p.as_ref())) {
+            Ok(true) => {}
+            Ok(false) => out.violate(
+                sig(&fam, "query_batch", "value_no_longer_equals_its_earlier_clone", "sequential"),
+                format!("{}: after a batch of {} queries the value no longer compares equal to a clone taken before the first query", x.kind(), qs_all.len()),
+            ),
+            Err(_) => {}
         }
     }
     out.count("sequential_queries", 3 * qs_all.len() as u64);
@@ -216,7 +228,18 @@ pub fn exec(case: &ThrCase) -> RunOut {
         // the threads share a value nobody has queried yet (a second, identical construction), so that anything
         // done lazily on first use happens under the scheduler; the expected answers come from `x`
         let fresh = catch(|| case.spec.build());
-        if let (false, Ok(y)) = (batch.is_empty(), fresh) {
+        let skip_shuttle = std::env::var("QSIM_NO_SHUTTLE").is_ok();
+        if skip_shuttle {
+            out.count("shuttle_phase_skipped", 1);
+        }
+        // shuttle runs its tasks as coroutines on this one OS thread: a task that blocks on a primitive shuttle does
+        // not model (a std Mutex held across an H4 point, say) blocks the whole process although real threads
+        // would simply wait. The supervisor recognises that situation by this marker and does not count it.
+        let phase_file = std::env::var("QSIM_PHASE_FILE").ok();
+        if let (Some(f), false) = (&phase_file, skip_shuttle) {
+            let _ = std::fs::write(f, "shuttle");
+        }
+        if let (false, Ok(y), false) = (batch.is_empty(), fresh, skip_shuttle) {
             drop(x);
             let r = sched::run(case, y, batch, &fam);
             for (k, v) in r.counters {
@@ -249,6 +272,10 @@ pub fn exec(case: &ThrCase) -> RunOut {
         drop(x);
     }
     let _ = fnv(b"");
+    #[cfg(feature = "sched")]
+    if let Ok(f) = std::env::var("QSIM_PHASE_FILE") {
+        let _ = std::fs::remove_file(f);
+    }
     let _ = qwt::verif::take_probes();
     out.digest = digest.0;
     out
